@@ -4,7 +4,7 @@ From RecordUpdate Require Import RecordSet.
 From PC.Base Require Import Assoc.
 From PC.Sup Require Import Model Monitors Tactics Sim ObsFacts Effects RelCore.
 From PC.Sup Require Import MonC12w.
-From PC.Sup Require Import LemC12 LemC12Inst LemC12Obs LemC12Obs2 LemC12Frame LemC12Ev LemC12Run RelC12.
+From PC.Sup Require Import LemC12 LemC12Inst LemC12Obs LemC12Obs2 LemC12Obs3 LemC12Frame LemC12Ev LemC12Run LemC12Mono RelC12.
 From PC.Sup Require Import RelC12Api RelC12Stop RelC12State RelC12ProcEnd RelC12Env RelC12Own RelC12Shutdown.
 Import ListNotations RecordSetNotations.
 
@@ -18,11 +18,11 @@ Record R (s : sys) (o : obs) (g : gst) : Prop := mkR {
   r_core : Rc cs s o;
   r_lock : LockInv s;
   r_ok : forall i x, get i (insts s) = Some x -> AliveOK x;
-  r_pi : forall i x xo, get i (insts s) = Some x -> get i (oi o) = Some xo -> PI (F2 o) x xo;
+  r_pi : forall i x xo, get i (insts s) = Some x -> get i (oi o) = Some xo -> PI (w_commit o) x xo;
   r_pend : forall th i, RelC12.pend_at (spc (get_thread s th)) = Some i ->
            get th (thinst s) <> Some i /\
-           exists x xo, get i (insts s) = Some x /\ get i (oi o) = Some xo /\ o_stopreq xo = true /\
-                        (F2 o = false -> launches x = 0);
+           exists x, get i (insts s) = Some x /\ Q (w_commit o) x;
+  r_ent : EntInv s;
   r_sd : o_sd_cur o = match sd_active s with Some p => [p] | None => [] end;
   r_run : RunOK s;
   r_sdinst : forall sdth order, sd_active s = Some (sdth, order) -> forall j, In j order -> get j (insts s) <> None;
@@ -41,11 +41,13 @@ Proof.
   constructor; cbn; try discriminate; try reflexivity.
   - apply Rc_init.
   - apply LockInv_init.
+  - apply EntInv_init.
   - intros p [].
 Qed.
 
 Lemma flush_inst_eq th s j x' : get j (insts (flush th s)) = Some x' ->
-  exists x, get j (insts s) = Some x /\ iview x' = iview x /\ launches x' = launches x.
+  exists x, get j (insts s) = Some x /\ iview x' = iview x /\ launches x' = launches x /\
+            (l_runctx x = true -> l_runctx x' = true).
 Proof.
   intros Hx'. pose proof (flush_iview th s j) as Hv. pose proof (flush_insts th s j) as Hl.
   destruct (get j (insts s)) as [x|]; [|rewrite Hl in Hx'; discriminate].
@@ -55,17 +57,27 @@ Proof.
 Qed.
 
 Lemma flush_inst_fw th s j x : get j (insts s) = Some x ->
-  exists x', get j (insts (flush th s)) = Some x' /\ iview x' = iview x /\ launches x' = launches x.
+  exists x', get j (insts (flush th s)) = Some x' /\ iview x' = iview x /\ launches x' = launches x /\
+             (l_runctx x = true -> l_runctx x' = true).
 Proof.
   intros Hx. pose proof (flush_insts th s j) as Hl. rewrite Hx in Hl. destruct Hl as (x' & E & L).
-  exists x'. split; [exact E|]. destruct (flush_inst_eq th s j x' E) as (x0 & E0 & Hv & Hl).
+  exists x'. split; [exact E|]. destruct (flush_inst_eq th s j x' E) as (x0 & E0 & Hv & Hl & Hr).
   assert (x0 = x) by congruence. subst. auto.
 Qed.
 
-Lemma PI_view f x x' xo : iview x' = iview x -> launches x' = launches x -> PI f x xo -> PI f x' xo.
+Lemma Q_view f x x' : iview x' = iview x -> launches x' = launches x -> (l_runctx x = true -> l_runctx x' = true) ->
+  Q f x -> Q f x'.
 Proof.
-  intros Hv Hl [A B C D E]. apply iview_eq in Hv. destruct Hv as (? & ? & Hp & Hd & Ha & ?).
-  constructor; rewrite ?Hp, ?Hd, ?Ha, ?Hl; assumption.
+  intros Hv Hl Hr [A B]. apply iview_eq in Hv. destruct Hv as (_ & _ & Hp & _). unfold Q. rewrite Hp, Hl. auto.
+Qed.
+
+Lemma PI_view f x x' xo : iview x' = iview x -> launches x' = launches x -> (l_runctx x = true -> l_runctx x' = true) ->
+  PI f x xo -> PI f x' xo.
+Proof.
+  intros Hv Hl Hr [A B D E]. pose proof (Q_view f x x' Hv Hl Hr) as HQ.
+  apply iview_eq in Hv. destruct Hv as (? & ? & Hp & Hd & Ha & ?).
+  constructor; rewrite ?Hp, ?Hd, ?Ha, ?Hl; try assumption.
+  intros Hdone. destruct (D Hdone); auto.
 Qed.
 
 Lemma AliveOK_view x x' : iview x' = iview x -> AliveOK x -> AliveOK x'.
@@ -80,16 +92,18 @@ Qed.
 
 Lemma R_flush s o g th : R s o g -> R (flush th s) o g.
 Proof.
-  intros [H1 H2 H3 H4 H5 H6 Hrun Hsdi H7 H8]. constructor.
+  intros [H1 H2 H3 H4 H5 Hent H6 Hrun Hsdi H7 H8]. constructor.
   - eapply Rc_sys_same; [exact H1|apply sys_same_flush].
   - now apply LockInv_flush.
   - intros i x' Hx'. destruct (flush_inst_eq th s i x' Hx') as (x & Hx & Hv & _).
     eapply AliveOK_view; eauto.
-  - intros i x' xo Hx' Hxo. destruct (flush_inst_eq th s i x' Hx') as (x & Hx & Hv & Hl).
+  - intros i x' xo Hx' Hxo. destruct (flush_inst_eq th s i x' Hx') as (x & Hx & Hv & Hl & Hr).
     eapply PI_view; eauto.
   - intros th' i. rewrite get_thread_flush, flush_thinst. intros Hp.
-    destruct (H5 th' i Hp) as (Hn & x & xo & Hx & Hxo & Hs & Hz). split; [exact Hn|].
-    destruct (flush_inst_fw th s i x Hx) as (x' & Hx' & Hv & Hl). exists x', xo. rewrite Hl. auto.
+    destruct (H5 th' i Hp) as (Hn & x & Hx & HQ). split; [exact Hn|].
+    destruct (flush_inst_fw th s i x Hx) as (x' & Hx' & Hv & Hl & Hr). exists x'. split; [exact Hx'|].
+    eapply Q_view; eauto.
+  - now apply EntInv_flush.
   - now rewrite flush_sd_active.
   - now apply RunOK_flush.
   - intros sdth order. rewrite flush_sd_active. intros Hs j Hj. specialize (Hsdi sdth order Hs j Hj).
@@ -107,9 +121,9 @@ Qed.
 Lemma PI_core s o th e s' : step_core s th e = Some s' -> PI_goal cs s o th e s'.
 Proof.
   intros H. destruct (step_core_kind _ _ _ _ H) as [? ?|i0 x0 ? ? ? ? ? ?|Hk|Hk|Hk|i0 s0 ? Hk|i0 s0 b ? Hk|Hk|i0 ? Hk|Hk|Hk]; subst.
-  - intros f f' HR Hf HO HT j x xo x' xo' Hx Hxo [Pa Pc Ps Pd Pl] Hx' Hxo'.
+  - intros f f' HR Hf HO HT j x xo x' xo' Hx Hxo [Pa Pc Pd Pl] Hx' Hxo'.
     pose proof (rc_th _ _ _ HR) as Hrth. pi_leaf j s x.
-  - intros f f' HR Hf HO HT j x xo x' xo' Hx Hxo [Pa Pc Ps Pd Pl] Hx' Hxo'.
+  - intros f f' HR Hf HO HT j x xo x' xo' Hx Hxo [Pa Pc Pd Pl] Hx' Hxo'.
     pose proof (rc_th _ _ _ HR) as Hrth. pi_leaf j s x.
   - now apply PI_reg.
   - now apply PI_api.
@@ -146,10 +160,16 @@ Proof.
   destruct (sd_holder s th th1 o1 HL E) as [_ Hs]; [now rewrite Hd|]. rewrite Hd in Hs. discriminate.
 Qed.
 
+Lemma ev_stoppending_ent s th i s' : step_core s th (EStopPending i) = Some s' ->
+  exists c, spc (get_thread s th) = SEntered i c.
+Proof.
+  intros H. cbn in H. unfold step_stop in H. break_step H. split_andb. subst. eauto.
+Qed.
+
 (* ---- one step of step_core from a state related by R ------------------------------------------------ *)
 Section Core.
 Context (s : sys) (o : obs) (g : gst) (th : tid) (e : event) (s' : sys).
-Context (HR : R s o g) (H : step_core s th e = Some s').
+Context (HR : R s o g) (H : step_core s th e = Some s') (Hpend : pend (get_thread s th) = None).
 Context (Hside : side_ok o g (th, e) = true).
 Context (HR' : Rc cs s' (obs_step cs o (th, e))).
 Let o' := obs_step cs o (th, e).
@@ -158,21 +178,21 @@ Lemma core_HO : forall i, RelC12.pend_at (spc (get_thread s th)) = Some i -> get
 Proof. intros i Hp. now destruct (r_pend _ _ _ HR th i Hp). Qed.
 
 Lemma core_HT : forall i x xo, RelC12.pend_at (spc (get_thread s th)) = Some i -> get i (insts s) = Some x -> get i (oi o) = Some xo ->
-  o_stopreq xo = true /\ (F2 o = false -> launches x = 0).
+  Q (w_commit o) x.
 Proof.
-  intros i x xo Hp Hx Hxo. destruct (r_pend _ _ _ HR th i Hp) as (_ & x2 & xo2 & Hx2 & Hxo2 & A & B).
-  assert (x2 = x) by congruence. assert (xo2 = xo) by congruence. subst. auto.
+  intros i x xo Hp Hx Hxo. destruct (r_pend _ _ _ HR th i Hp) as (_ & x2 & Hx2 & A).
+  assert (x2 = x) by congruence. subst. auto.
 Qed.
 
 Lemma core_old j x : get j (insts s) = Some x ->
   exists xo x' xo', get j (oi o) = Some xo /\ get j (insts s') = Some x' /\ get j (oi o') = Some xo' /\
-    ichange x x' /\ PIstep (F2 o) (F2 o') x x' xo xo'.
+    ichange x x' /\ PIstep (w_commit o) (w_commit o') x x' xo xo'.
 Proof.
   intros Hx. destruct (rc_inst _ _ _ (r_core _ _ _ HR) j x Hx) as (xo & Hxo & _).
   pose proof (step_ichange _ _ _ _ H j) as Hi. rewrite Hx in Hi. destruct Hi as (x' & Hx' & Hch).
   destruct (rc_inst _ _ _ HR' j x' Hx') as (xo' & Hxo' & _).
   exists xo, x', xo'. split; [exact Hxo|]. split; [exact Hx'|]. split; [exact Hxo'|]. split; [exact Hch|].
-  apply (PI_core _ _ _ _ _ H (F2 o) (F2 o') (r_core _ _ _ HR) (F2_step cs o th e) core_HO core_HT j x xo x' xo' Hx Hxo);
+  apply (PI_core _ _ _ _ _ H (w_commit o) (w_commit o') (r_core _ _ _ HR) (Wc_step cs o th e) core_HO core_HT j x xo x' xo' Hx Hxo);
     auto. apply (r_pi _ _ _ HR j x xo Hx Hxo).
 Qed.
 
@@ -191,7 +211,7 @@ Proof.
   - destruct (core_new i x' Hx Hx') as (n & c & _ & ->). unfold AliveOK, new_inst. cbn. split; [discriminate|congruence].
 Qed.
 
-Lemma core_pi : forall i x' xo', get i (insts s') = Some x' -> get i (oi o') = Some xo' -> PI (F2 o') x' xo'.
+Lemma core_pi : forall i x' xo', get i (insts s') = Some x' -> get i (oi o') = Some xo' -> PI (w_commit o') x' xo'.
 Proof.
   intros i x' xo' Hx' Hxo'. destruct (get i (insts s)) as [x|] eqn:Hx.
   - destruct (core_old i x Hx) as (xo & x2 & xo2 & _ & Hx2 & Hxo2 & _ & Hst & _).
@@ -201,31 +221,24 @@ Proof.
     constructor; unfold new_inst; cbn; try discriminate; congruence.
 Qed.
 
-Lemma core_carry i x xo : get i (insts s) = Some x -> get i (oi o) = Some xo -> o_stopreq xo = true ->
-  (F2 o = false -> launches x = 0) ->
-  exists x' xo', get i (insts s') = Some x' /\ get i (oi o') = Some xo' /\ o_stopreq xo' = true /\
-                 (F2 o' = false -> launches x' = 0).
+Lemma core_carry i x : get i (insts s) = Some x -> Q (w_commit o) x ->
+  exists x', get i (insts s') = Some x' /\ Q (w_commit o') x'.
 Proof.
-  intros Hx Hxo Hs Hl. destruct (core_old i x Hx) as (xo2 & x' & xo' & Hxo2 & Hx' & Hxo' & _ & _ & Hmono & Hlau).
-  assert (xo2 = xo) by congruence. subst. exists x', xo'. repeat split; auto.
-  intros Hf'. rewrite (Hlau Hf' Hs). apply Hl. now destruct (F2_step cs o th e Hf').
+  intros Hx HQ. destruct (core_old i x Hx) as (xo & x' & xo' & Hxo & Hx' & Hxo' & _ & _ & Hq).
+  exists x'. auto.
 Qed.
 
 Lemma core_pend : forall th' i, RelC12.pend_at (spc (get_thread s' th')) = Some i ->
-  get th' (thinst s') <> Some i /\
-  exists x xo, get i (insts s') = Some x /\ get i (oi o') = Some xo /\ o_stopreq xo = true /\
-               (F2 o' = false -> launches x = 0).
+  get th' (thinst s') <> Some i /\ exists x, get i (insts s') = Some x /\ Q (w_commit o') x.
 Proof.
   destruct (step_core_frame _ _ _ _ H) as [Ford Fother Fsd Fthinst Fpend].
   assert (Hpre : forall th' i, RelC12.pend_at (spc (get_thread s th')) = Some i ->
-            get th' (thinst s') <> Some i /\
-            exists x xo, get i (insts s') = Some x /\ get i (oi o') = Some xo /\ o_stopreq xo = true /\
-               (F2 o' = false -> launches x = 0)).
-  { intros th' i Hp. destruct (r_pend _ _ _ HR th' i Hp) as (Hn & x & xo & Hx & Hxo & Hs & Hl). split.
+            get th' (thinst s') <> Some i /\ exists x, get i (insts s') = Some x /\ Q (w_commit o') x).
+  { intros th' i Hp. destruct (r_pend _ _ _ HR th' i Hp) as (Hn & x & Hx & HQ). split.
     - destruct Fthinst as [->|(i0 & He & Hnone & ->)]; [exact Hn|].
       rewrite get_set. destruct (N.eqb_spec th th') as [<-|Hne]; [|exact Hn].
       exfalso. unfold get_thread in Hp. rewrite Hnone in Hp. discriminate.
-    - now apply (core_carry i x xo). }
+    - now apply (core_carry i x). }
   intros th' i Hp. destruct (N.eq_dec th' th) as [->|Hne].
   - rewrite <- !pend_at_same in *. destruct Fpend as [Fp|[Fp|(i0 & x & He & Hsp & Hx)]].
     + apply Hpre. rewrite <- pend_at_same. congruence.
@@ -237,8 +250,17 @@ Proof.
       rewrite (oi_get_some _ _ _ Hxo) in Hl. split.
       * destruct Fthinst as [->|(i1 & He & _)]; [|discriminate]. rewrite (rc_th _ _ _ (r_core _ _ _ HR)).
         intros Hc. rewrite Hc in Hown. cbn in Hown. now rewrite N.eqb_refl in Hown.
-      * destruct (obs_stoppending cs o th i0 xo Hxo) as (xo' & Hxo' & Hs').
-        exists x, xo'. rewrite (ev_stoppending _ _ _ _ H). repeat split; auto. intros _. congruence.
+      * exists x. rewrite (ev_stoppending _ _ _ _ H). split; [exact Hx|]. split.
+        -- (* the stop entered with cancel = true and has cancelled the run context *)
+           destruct (ev_stoppending_ent _ _ _ _ H) as (c & Hsp0).
+           pose proof (r_ent _ _ _ HR th) as He. unfold ent_ok in He. rewrite Hsp0 in He.
+           destruct c; destruct He as (x2 & Hx2 & He); assert (x2 = x) by congruence; subst x2.
+           ++ destruct He as [He|He]; [congruence|exact He].
+           ++ exfalso. apply He. congruence.
+        -- intros Hf'. destruct (Wc_step cs o th (EStopPending i0) Hf') as [_ Hex]. cbn in Hex.
+           rewrite (oi_get_some _ _ _ Hxo) in Hex. split; [congruence|].
+           destruct (cmt_pc (pc x)) eqn:Ec; [|reflexivity].
+           rewrite (pi_commit _ _ _ (r_pi _ _ _ HR i0 x xo Hx Hxo) Ec) in Hex. discriminate.
   - apply Hpre. now rewrite <- (Fother th' Hne).
 Qed.
 
@@ -329,7 +351,7 @@ Qed.
 
 End Core.
 (* ---- the monitor's check at a worker's stop signal -------------------------------------------------- *)
-Lemma mon_check s o g th i sig p : R s o g -> F2 o = false -> is_worker g th i = true ->
+Lemma mon_check s o g th i sig p : R s o g -> w_commit o = false -> is_worker g th i = true ->
   mon_C12 true cs o (th, ESignal i sig p) = true.
 Proof.
   intros HR HF Hw. unfold is_worker in Hw. apply opt_eqb_N_eq in Hw.
@@ -342,18 +364,18 @@ Proof.
   - destruct (rc_inst _ _ _ (r_core _ _ _ HR) j y Ey) as (yo & Hyo & Hnm & Hcf & _).
     rewrite (oi_get_some _ _ _ Hyo). unfold conf_of. rewrite Hnm, Hcf.
     destruct (memN (nm x) (map fst (deps (cf y)))) eqn:Em; [cbn|reflexivity].
-    destruct (r_pi _ _ _ HR j y yo Ey Hyo) as [Pa _ _ Pd Pl]. rewrite Pa.
+    destruct (r_pi _ _ _ HR j y yo Ey Hyo) as [Pa _ Pd Pl]. rewrite Pa.
     destruct (alive y) eqn:Ea; [exfalso|reflexivity].
     destruct (r_ok _ _ _ HR j y Ey) as [Hpc _]. specialize (Hpc Ea).
     rewrite Hpc in *. destruct (Pd (Hall eq_refl)) as [Hend|[_ Hl]]; [discriminate|].
-    apply (Pl eq_refl). now apply Hl.
+    apply (Pl eq_refl). now destruct (Hl HF).
   - rewrite (rc_noinst _ _ _ (r_core _ _ _ HR) j Ey) || (unfold oi_get; rewrite (rc_noinst _ _ _ (r_core _ _ _ HR) j Ey)).
     cbn. apply orb_true_r.
 Qed.
 
 (* ---- one accepted step ------------------------------------------------------------------------------ *)
 Lemma R_step s o g th e s' : R s o g -> step s (th, e) = Some s' -> side_ok o g (th, e) = true ->
-  R s' (obs_step cs o (th, e)) (g_step g (th, e)) /\ (mon_w true cs o g (th, e) = true \/ F2 o = true).
+  R s' (obs_step cs o (th, e)) (g_step g (th, e)) /\ (mon_w true cs o g (th, e) = true \/ w_commit o = true).
 Proof.
   intros HR H Hside. split.
   - pose proof (Rc_step cs _ _ _ _ _ (r_core _ _ _ HR) H) as HR'.
@@ -364,13 +386,14 @@ Proof.
     + eapply LockInv_core; [apply (r_lock _ _ _ HR0)|apply flush_pend_none|exact H].
     + apply (core_ok _ _ _ _ _ _ HR0 H HR').
     + apply (core_pi _ _ _ _ _ _ HR0 H HR').
-    + apply (core_pend _ _ _ _ _ _ HR0 H Hside HR').
+    + eapply core_pend; eauto using flush_pend_none.
+    + eapply EntInv_core; [apply (r_ent _ _ _ HR0)|apply flush_pend_none|exact H].
     + apply (core_sd _ _ _ _ _ _ HR0 H Hside HR').
     + eapply core_run; eauto.
     + eapply core_sdinst; eauto.
     + exact G1.
     + exact G2.
-  - destruct (F2 o) eqn:HF; [now right|left]. unfold mon_w. cbn [fst snd].
+  - destruct (w_commit o) eqn:HF; [now right|left]. unfold mon_w. cbn [fst snd].
     destruct e; try reflexivity. destruct (is_worker g th i) eqn:Hw; [|reflexivity].
     now apply (mon_check s o g).
 Qed.
@@ -378,21 +401,21 @@ Qed.
 End SimC12.
 
 (* ---- the theorems ------------------------------------------------------------------------------------ *)
-Lemma F2_fold_mono cs evs : forall o, F2 (fold_left (obs_step cs) evs o) = false -> F2 o = false.
+Lemma F2_fold_mono cs evs : forall o, w_commit (fold_left (obs_step cs) evs o) = false -> w_commit o = false.
 Proof.
   induction evs as [|[th e] evs IH]; intros o Hf; cbn in Hf; [exact Hf|].
-  apply IH in Hf. now destruct (F2_step cs o th e Hf).
+  apply IH in Hf. now destruct (Wc_step cs o th e Hf).
 Qed.
 
 Lemma sim_w cs : forall evs s o g s', R cs s o g -> accept s evs = Some s' ->
-  run3 side_ok cs o g evs = true -> F2 (fold_left (obs_step cs) evs o) = false ->
+  run3 side_ok cs o g evs = true -> w_commit (fold_left (obs_step cs) evs o) = false ->
   run3 (mon_w true cs) cs o g evs = true.
 Proof.
   induction evs as [|[th e] evs IH]; intros s o g s' HR Hacc Hside HF; [reflexivity|].
   cbn in Hacc, Hside, HF |- *. destruct (step s (th, e)) as [s1|] eqn:Es; [|discriminate].
   apply andb_true_iff in Hside. destruct Hside as [Hs1 Hs2].
   destruct (R_step cs s o g th e s1 HR Es Hs1) as [HR1 Hm].
-  pose proof (F2_fold_mono cs evs _ HF) as HF1. destruct (F2_step cs o th e HF1) as [HF0 _].
+  pose proof (F2_fold_mono cs evs _ HF) as HF1. destruct (Wc_step cs o th e HF1) as [HF0 _].
   destruct Hm as [Hm|Hm]; [|congruence]. rewrite Hm. cbn. eapply IH; eauto.
 Qed.
 
